@@ -51,14 +51,14 @@ CHECKS = {
     ),
     "C15": dict(
         level="fault_enumeration",
-        text="For each small scheme/method the fault-free run fixes the number N of model evaluations; a fault (exception object, NaN matrix, Inf matrix) is then injected at every k = 1..N, plus persistent region faults, for every method and verbose/raise_exception combination; oracle from the statement (exception identity, InitialParameterError iff nothing evaluated, Result from a parameter vector the harness megacomplex logged as evaluated without error, stdout identity, scheme snapshot); every kind of invalid scheme is rejected before any evaluation. Error texts without message, with several lines and with a leading line break are injected as well.",
+        text="For each small scheme/method the fault-free run fixes the number N of model evaluations; a fault (exception object, NaN matrix, Inf matrix) is then injected at every k = 1..N, plus persistent region faults, for every method and verbose/raise_exception combination; oracle from the statement (exception identity, InitialParameterError iff nothing evaluated, Result from a parameter vector the harness megacomplex logged as evaluated without error, stdout identity, scheme snapshot); every kind of invalid scheme is rejected before any evaluation. Error texts without message, with several lines and with a leading line break are injected as well. Invalid schemes include two dataset groups of which one names an unknown residual function; the D15 known-finding predicate covers only faults that reach the post-fit code.",
         note="Fault position is enumerated exhaustively per scheme; the schemes themselves are a small fixed family (4 variants x seeds). Known finding D15 (create_result unprotected) is listed in known_findings.json.",
         technique="exhaustive fault-position enumeration with a logging harness megacomplex",
         ref="DESIGN.md section 4 C15",
     ),
     "C08": dict(
         level="exploration",
-        text="Exhaustive enumeration (unit level) of every axis that is a subset (size 1-5) of a 7-point dyadic grid x every ordered bound pair from {-inf, below, on a point, quarter point, exact midpoint, above, +inf} x 1-2 intervals x item kind against an interval reference model written from the statement (inside subset-of S subset-of inside+nearest-range, monotone, only = complement of zero, union for lists), plus Hypothesis-generated schemes through optimize() decoding the affected sets from reported clps / weights / penalties / clp counts, the dataset-weight-wins-with-warning rule, 2-3 relations with their own intervals, index-dependent and index-independent matrices, and a differential locality check (the same scheme with and without one item must agree outside the item's reach).",
+        text="Exhaustive enumeration (unit level) of every axis that is a subset (size 1-5) of a 7-point dyadic grid x every ordered bound pair from {-inf, below, on a point, quarter point, exact midpoint, above, +inf} x 1-2 intervals x item kind against an interval reference model written from the statement (inside subset-of S subset-of inside+nearest-range, monotone, only = complement of zero, union for lists), plus Hypothesis-generated schemes through optimize() decoding the affected sets from reported clps / weights / penalties / clp counts, the dataset-weight-wins-with-warning rule, 2-3 relations with their own intervals, index-dependent and index-independent matrices, and a differential locality check (the same scheme with and without one item must agree outside the item's reach). Unit level also: an item used with another interval before, and a deep copy of a used item, act on the interval assigned last.",
         note="Float-fragile decisions (bound within 1e-9 of a point, nearest-point ties) are left open in the reference (set of admissible outcomes). Exhaustive only over the stated grid.",
         technique="exhaustive enumeration + property-based testing against an interval reference model",
         ref="DESIGN.md section 4 C08",
@@ -107,7 +107,7 @@ CHECKS = {
     ),
     "C18": dict(
         level="exploration",
-        text="Exhaustive matrix of every save_* function x every registered format (+ unknown format, + a harness plugin that writes half a file and raises) x target state x allow_overwrite with a file-tree snapshot oracle (bytes and mtimes); exhaustive short sequences and Hypothesis state machines over a real Project (optimize with prefix-sharing result names, import/generate with all flags, deletion of old runs) against a run-number model written from the statement, including saves that fail midway and up to three live Project handles on one folder used alternately.",
+        text="Exhaustive matrix of every save_* function x every registered format (+ unknown format, + a harness plugin that writes half a file and raises) x target state x allow_overwrite with a file-tree snapshot oracle (bytes and mtimes); exhaustive short sequences and Hypothesis state machines over a real Project (optimize with prefix-sharing result names, import/generate with all flags, deletion of old runs) against a run-number model written from the statement, including saves that fail midway and up to three live Project handles on one folder used alternately. Result names also contain '.' and glob characters; the protected save is also tried on the file the same object was saved to before.",
         note="Result names ending in _run_dddd are inherently ambiguous and excluded. Exhaustive over the stated matrix and over sequences of length 4 (5 in thorough) only.",
         technique="exhaustive enumeration + stateful property-based testing against a reference model",
         ref="DESIGN.md section 4 C18",
@@ -128,7 +128,7 @@ CHECKS = {
     ),
     "C09": dict(
         level="exploration",
-        text="Exhaustive enumeration of 2-dataset (axes = subsets of {0..4} + offsets) and 3-dataset (subsets of {0,1,2}) alignments x 6 tolerances x 3 methods x dataset orders (stratified 1/19 sample in quick, all 625 050 in thorough) plus Hypothesis-generated larger cases, against an alignment reference model written from the statement (nearest admissible target within tolerance on the permitted side, growing aligned set, AlignDatasetError iff a dataset's points collide); data values are unique so the (dataset, column) -> aligned point assignment is decoded from get_aligned_data; and optimize() level: clps identical iff aligned to the same point, reported on original coordinates, equal to the lstsq solution of exactly the stacked columns.",
+        text="Exhaustive enumeration of 2-dataset (axes = subsets of {0..4} + offsets) and 3-dataset (subsets of {0,1,2}) alignments x 6 tolerances x 3 methods x dataset orders (stratified 1/19 sample in quick, all 625 050 in thorough) plus Hypothesis-generated larger cases, against an alignment reference model written from the statement (nearest admissible target within tolerance on the permitted side, growing aligned set, AlignDatasetError iff a dataset's points collide); data values are unique so the (dataset, column) -> aligned point assignment is decoded from get_aligned_data; and optimize() level: clps identical iff aligned to the same point, reported on original coordinates, equal to the lstsq solution of exactly the stacked columns. Sub-check optimize_continued applies the same clauses to a second optimize() started from result.get_scheme().",
         note="Float-fragile decisions (distance within 1e-9 of the tolerance, equidistant candidates) are left open: the model returns the set of admissible outcomes. Axes strictly increasing.",
         technique="exhaustive enumeration + property-based testing against an alignment reference model",
         ref="DESIGN.md section 4 C09",
